@@ -209,6 +209,10 @@ class Run(RunBase):
         if dangling(self.m.a):
             raise HarnessError(f"generated network is not well formed: {dangling(self.m.a)[:3]}")
         self.last = "start"
+        # an independent network built from the same spec that nobody operates on (state shared by accident between
+        # instances would change it)
+        self.idle = build.build_network(universe["network"])
+        self.idle_abs = sut_abstract(self.idle)
         self.shadow = None  # (scenario, model) of the sibling: the source of a cut-out, or the original of a copy
 
     def _swap(self):
@@ -238,6 +242,8 @@ class Run(RunBase):
         a = self.m.a
         k = op["op"]
         part = {"lanelet": "L", "sign": "S", "light": "T", "intersection": "I"}
+        if k == "sc_remove_intruder":
+            return len(op["ids"]) > 0 and len(set(op["ids"])) == len(op["ids"]) and all(i in a["L"] for i in op["ids"])
         if k == "net_remove_absent":
             return op["id"] not in a[part[op["kind"]]]
         if k in ("net_remove", "sc_remove"):
@@ -302,6 +308,12 @@ class Run(RunBase):
         a = self.m.a
         self.note_state([sorted(a["L"]), sorted(a["S"]), sorted(a["T"]), sorted(a["I"])])
         return out
+
+    def finish(self):
+        d = first_diff(sut_abstract(self.idle), self.idle_abs)
+        if d:
+            raise Violation("C10/independent-network-affected/finish",
+                            f"a second network built from the same specification and never operated on changed: {d}")
 
     def _op_check(self, op):
         self._check(op)
@@ -418,6 +430,36 @@ class Run(RunBase):
             raise Violation(f"C10/removal-raised/{self.last}", f"{self.last}({ids}) raised {type(e).__name__}: {e}")
         self._check(op)
         return "ok"
+
+    def _op_sc_remove_intruder(self, op):
+        """Scenario.remove_lanelet with a list that contains a lanelet which is NOT in the network: the call may fail
+        half-way.  Whatever it removed, no remaining element may refer to a removed id and nothing else may change."""
+        ids = op["ids"]
+        objs = [self._find("lanelet", i) for i in ids]
+        intruder = build.build_lanelet({"id": 9000 + op.get("n", 0), "left": [[900, 1], [910, 1]],
+                                        "center": [[900, 0], [910, 0]], "right": [[900, -1], [910, -1]]})
+        objs.insert(op["pos"] % (len(objs) + 1), intruder)
+        ref = bool(op.get("ref", True))
+        self.last = f"Scenario.remove_lanelet[list with a foreign lanelet,ref={ref}]"
+        self.faults["F-midbatch"] += 1
+        try:
+            self.sc.remove_lanelet(objs, referenced_elements=ref)
+            raised = None
+        except Exception as e:  # noqa
+            raised = type(e).__name__
+        remaining = {la.lanelet_id for la in self.net.lanelets}
+        gone = [i for i in ids if i not in remaining]
+        signs_now = {x.traffic_sign_id for x in self.net.traffic_signs}
+        lights_now = {x.traffic_light_id for x in self.net.traffic_lights}
+        for x in sorted(set(self.m.a["S"]) - signs_now):
+            self.m.remove_sign(x)
+        for x in sorted(set(self.m.a["T"]) - lights_now):
+            self.m.remove_light(x)
+        for i in gone:
+            self.m.remove_lanelet(i)
+        self.probe("list-removal-interrupted" if raised and gone else "list-removal-with-foreign-lanelet")
+        self._check(op)
+        return {"raised": raised, "gone": gone}
 
     def _op_cut_shape(self, op):
         net = self.net
@@ -538,6 +580,11 @@ def _remover(rng, run, cfg):
             continue
         kind = rng.pick(kinds)
         ids = sorted(a[part[kind]])
+        if kind == "lanelet" and rng.chance(0.06):
+            n = rng.randint(1, min(3, len(ids)))
+            yield {"op": "sc_remove_intruder", "ids": rng.sample(ids, n), "pos": rng.randrange(4),
+                   "ref": rng.chance(0.6)}
+            continue
         if rng.chance(0.08):
             gone = rng.choice([x for x in range(1, 130) if x not in a[part[kind]]])
             yield {"op": "net_remove_absent", "kind": kind, "id": gone}
@@ -598,7 +645,7 @@ class C10(Property):
                        "exclusive-sign-or-light-removed-with-lanelet", "shared-sign-or-light-kept",
                        "cut-out-by-shape-partial", "cut-out-by-type-partial", "restart-pickle", "restart-deepcopy",
                        "cut-out-keeps-source-alive", "continued-on-the-other-network", "removal-of-absent-id",
-                       "cut-out-shape-exactly-tangent-to-lanelet"]
+                       "cut-out-shape-exactly-tangent-to-lanelet", "list-removal-interrupted"]
     assumptions = [
         "networks are well formed: every reference names an existing element and a stop line refers only to signs and "
         "lights its lanelet also references (checked on every generated universe)",
